@@ -7,6 +7,7 @@ import subprocess
 ROOT = os.path.dirname(os.path.dirname(os.path.abspath(__file__)))
 
 TECH = {
+    "C06": ("boundary monitor on Tx.verify_input: library-signed positives for 12 spend types, mutation catalogue classified by a reference authorisation analyser (negatives carry an unauthorised-by-construction proof); contracts on the signature opcodes", "2 C06"),
     "C05": ("contracts on Tx.sig_hash_legacy/_bip143/_bip341/sig_hash that snapshot the object at call time and recompute the digest with a memo-free reference; query/edit history workload; fresh-object comparison", "2 C05"),
     "C04": ("contracts on Tx/Script/Witness/varint codecs vs reference wire codec; byte and field round trips; txid edit monitors; fetcher history monitor against a stubbed hostile server with cache invariant", "2 C04"),
     "C02": ("contracts on sign_schnorr / bip340_k / verify_schnorr / tagged_hash vs reference BIP340; 64-byte candidate catalogue through parse+verify; tag-cache invariant", "2 C02"),
